@@ -230,6 +230,9 @@ package xy
 //@   ensures calc.cg3[1] == old(calc.cg3[1]) + (isPositiveArea ? 0.0 - 1.0 : 1.0) * ((p1[0]-p0[0])*(p2[1]-p0[1]) - (p2[0]-p0[0])*(p1[1]-p0[1])) * (p0[1] + p1[1] + p2[1])
 //@   ensures calc.cg3 == old(calc.cg3) && calc.triangleCent3 == old(calc.triangleCent3) && calc.basePt == old(calc.basePt) && calc.centSum == old(calc.centSum) && calc.totalLength == old(calc.totalLength) && calc.stride == old(calc.stride) && calc.layout == old(calc.layout)
 //@   modifies *calc, calc.cg3[0:2], calc.triangleCent3[0:2]
+//@   at stmt5: assert sign == (isPositiveArea ? 0.0 - 1.0 : 1.0) && area2 == ((p1[0]-p0[0])*(p2[1]-p0[1]) - (p2[0]-p0[0])*(p1[1]-p0[1])) && calc.triangleCent3[0] == p0[0] + p1[0] + p2[0] && calc.triangleCent3[1] == p0[1] + p1[1] + p2[1]
+//@   at stmt6: assert calc.cg3[0] == old(calc.cg3[0]) + (isPositiveArea ? 0.0 - 1.0 : 1.0) * ((p1[0]-p0[0])*(p2[1]-p0[1]) - (p2[0]-p0[0])*(p1[1]-p0[1])) * (p0[0] + p1[0] + p2[0]) && calc.cg3[1] == old(calc.cg3[1]) && calc.triangleCent3[1] == p0[1] + p1[1] + p2[1] && area2 == ((p1[0]-p0[0])*(p2[1]-p0[1]) - (p2[0]-p0[0])*(p1[1]-p0[1])) && sign == (isPositiveArea ? 0.0 - 1.0 : 1.0)
+//@   at stmt7: assert calc.cg3[1] == old(calc.cg3[1]) + (isPositiveArea ? 0.0 - 1.0 : 1.0) * ((p1[0]-p0[0])*(p2[1]-p0[1]) - (p2[0]-p0[0])*(p1[1]-p0[1])) * (p0[1] + p1[1] + p2[1]) && calc.cg3[0] == old(calc.cg3[0]) + (isPositiveArea ? 0.0 - 1.0 : 1.0) * ((p1[0]-p0[0])*(p2[1]-p0[1]) - (p2[0]-p0[0])*(p1[1]-p0[1])) * (p0[0] + p1[0] + p2[0])
 
 // area-weighted mean: cg3 / 3 / areasum2 (the textbook closed form once the accumulators are the fan sums);
 // zero area falls back to the length-weighted line centroid
